@@ -101,17 +101,48 @@ UNARY = dict(BASE, params=dict(self='obj:Factor', out='none'), requires=finv('se
 
 def _bind_marginalize(eng, st, bound, res, node):
     """Domain.marginalize's proven clauses (members, coverage, order) determine its result uniquely as the in-order
-    selection of self.attrs not in attrs; the callee result is introduced in that form so that the selection-uniqueness
-    lemma can relate it to numpy's axis removal."""
+    selection of self.attrs not in attrs (selection uniqueness, a lemma of the sequence theory).
+
+    When the same method has already removed axes from the values with numpy (np.sum / logsumexp / max over
+    axis=self.domain.axes(attrs)), the two selections are related by the LEMMA
+        for every position p of self.attrs:   p in axes   <=>   self.attrs[p] in attrs
+    which is emitted as an obligation of its own and discharged by the solver from the contract of Domain.axes (axes[k] is a
+    position of attrs[k]), distinctness of self.attrs and the membership axioms, with the instances of its two-line paper proof
+    supplied as hints (k1 = position of p in axes, k2 = position of self.attrs[p] in attrs).  With the lemma, marginalize's
+    result enumerates exactly the positions numpy kept, in the same (increasing) order: it is introduced over numpy's own
+    position function, so that the constructor preconditions of Factor(newdom, values) reduce to the invariant of self."""
+    from ..vc.arrays import Arr
     selfd, attrs = bound['self'], bound['attrs']
     A = eng.getattr(st, selfd, 'attrs', node)
     S = eng.getattr(st, selfd, 'shape', node)
     if isinstance(attrs, E.Tup):
         attrs = eng.arr_from_tup(attrs)
     keep = lambda e, s, i: z3.Not(e.membership(s, attrs, A.at(e, s, i)))
+    np_filters = [o for (_b, _k, o) in st.__dict__.get('_filters', []) if getattr(o, 'axes', None) is not None]
+    if np_filters:
+        out_np = np_filters[-1]
+        axes, keep_np = out_np.axes, out_np.keep_idx
+        p = eng.fresh('lemma_p', E.I)
+        s2 = st.fork()
+        s2.assume(z3.And(p >= 0, p < A.n))
+        x = A.at(eng, s2, p)
+        k1, _m1 = eng.first_index(s2, axes, E.Num(p))
+        k2, _m2 = eng.first_index(s2, attrs, x)
+        ak2 = axes.at(eng, s2, k2)
+        eng.hint_instances(s2, [p, k1, k2, ak2.t if isinstance(ak2, E.Num) else k2])
+        goal = keep_np(eng, s2, p) == keep(eng, s2, p)
+        eng.oblige(s2, 'lemma/removed-axis-positions-are-the-positions-of-the-marginalised-attributes@L%d' % node.lineno, goal, kind='lemma')
+        # the lemma, for use below (instantiated by E-matching wherever a position is mentioned)
+        eng.add_qfact(st, lambda e, s, i: z3.Implies(z3.And(i >= 0, i < A.n), keep_np(e, s, i) == keep(e, s, i)), name='lemma:axes-positions')
+        pos = out_np.pos
+        kept = Arr(out_np.n, lambda e, s, j: A.at(e, s, pos(j)), name='kept-attrs')
+        kept.pos, kept.inv, kept.src = pos, out_np.inv, A
+        st.assume(out_np.src.n == A.n) if False else None
+        st.fields[(str(res.t), 'attrs')] = kept
+        st.fields[(str(res.t), 'shape')] = Arr(out_np.n, lambda e, s, j: S.at(e, s, pos(j)), name='kept-shape')
+        return
     kept = eng.make_filter(st, A, keep, name='kept-attrs')
     pos = kept.pos
-    from ..vc.arrays import Arr
     st.fields[(str(res.t), 'attrs')] = kept
     st.fields[(str(res.t), 'shape')] = Arr(kept.n, lambda e, s, j: S.at(e, s, pos(j)), name='kept-shape')
 
@@ -122,8 +153,27 @@ MARGINALIZE_SELECTION = dict(D.MARGINALIZE_CALLEE, pure=False, bind=_bind_margin
 
 _RED_REQ = ['all_in(attrs, self.domain.attrs)', D.distinct('attrs')]
 REDUCE = dict(BASE, params=dict(self='obj:Factor', attrs='seq:obj'), requires=finv('self') + _RED_REQ,
-              ensures=dict({'remaining-attributes-in-order': 'seq_equal(result.domain.attrs, self.domain.invert(attrs))'},
+              ensures=dict({'remaining:' + k: (v % dict(r='result.domain.attrs')).replace('self.attrs', 'self.domain.attrs')
+                            for k, v in D._COMPLEMENT.items()},
                            **finv_named('result', 'result-invariant')))
+
+_REMAINING = {'remaining:' + k: (v % dict(r='result.domain.attrs')).replace('self.attrs', 'self.domain.attrs') for k, v in D._COMPLEMENT.items()}
+_RESULT_FULL = dict(finv_named('result', 'inv'), **dict(D.inv_named('result.domain', 'inv-domain'),
+                    **{'inv:real-names': 'forall(lambda p: real_name(result.domain.attrs[p]), 0, len(result.domain.attrs))',
+                       'inv:sizes-of-self': 'forall(lambda p: result.domain.config[result.domain.attrs[p]] == self.domain.config[result.domain.attrs[p]], 0, len(result.domain.attrs))'}))
+REDUCE = dict(REDUCE, ensures=dict(REDUCE['ensures'], **{k.replace('inv', 'result-invariant', 1): v for k, v in _RESULT_FULL.items() if k not in ('inv:not-flat', 'inv:one-axis-per-attribute', 'inv:axes-labelled-by-domain-order', 'inv:axis-sizes-from-domain')}))
+# callee contracts of the aggregations and of transpose, as used by Factor.project
+REDUCE_CALLEE = dict(arg_names=['attrs'], returns='obj:Factor', requires=list(_RED_REQ), ensures=dict(_REMAINING, **_RESULT_FULL))
+TRANSPOSE_CALLEE = dict(arg_names=['attrs'], returns='obj:Factor',
+                        requires=['all_in(attrs, self.domain.attrs)', 'all_in(self.domain.attrs, attrs)', D.distinct('attrs')],
+                        ensures=dict({'axes-in-requested-order': 'seq_equal(result.domain.attrs, attrs)',
+                                      'inv:sizes-of-self': 'forall(lambda p: result.domain.config[attrs[p]] == self.domain.config[attrs[p]], 0, len(attrs))'},
+                                     **finv_named('result', 'inv')))
+PROJECT = dict(BASE, params=dict(self='obj:Factor', attrs='seq:obj', agg='obj:'),
+               requires=finv('self') + ['all_in(attrs, self.domain.attrs)', D.distinct('attrs'), "agg == 'sum' or agg == 'logsumexp'"],
+               ensures=dict({'axes-in-requested-order': 'seq_equal(result.domain.attrs, attrs)',
+                             'sizes-of-self': 'forall(lambda p: result.domain.config[attrs[p]] == self.domain.config[attrs[p]], 0, len(attrs))'},
+                            **finv_named('result', 'result-invariant')))
 
 REG = {'.axes': AXES_CALLEE, '.contains': CONTAINS_CALLEE, '.project': D.PROJECT_CALLEE, '.marginalize': D.MARGINALIZE_CALLEE,
        '.merge': MERGE_CALLEE, 'Domain': D.DOMAIN_CALLEE, '.expand': EXPAND_CALLEE, '.__add__': BINARY_CALLEE}
@@ -134,12 +184,14 @@ REG_RED = dict(REG)
 REG_RED['.marginalize'] = MARGINALIZE_SELECTION
 REG_RED['.invert'] = INVERT_CALLEE
 
-# Aggregations (sum / logsumexp / max over named axes, and project / condition built on them) are NOT under deductive
-# contract: the obligation "numpy's positional axis removal yields the attribute order of Domain.marginalize" needs the
-# selection-uniqueness lemma plus a two-way membership argument whose ground instances z3 does not settle within the budget
-# (timeouts at 30 s).  They are decided by the bounded tier only.  STRETCH keeps the contracts for a later attempt.
-STRETCH = [('Factor.sum', REDUCE, REG_RED, 'attribute list'), ('Factor.logsumexp', REDUCE, REG_RED, 'attribute list'),
-           ('Factor.max', REDUCE, REG_RED, 'attribute list')]
+# Aggregations (sum / logsumexp / max over named axes) and project built on them.  The obligation "numpy's positional axis
+# removal yields the attribute order of Domain.marginalize" is carried by the positions-of-attributes LEMMA (an obligation of its
+# own, see _bind_marginalize) and by model-based instantiation of the solver's answers (pv/vc/arrays.py: refine).
+REG_PROJ = dict(REG)
+REG_PROJ.update({'.sum': REDUCE_CALLEE, '.logsumexp': REDUCE_CALLEE, '.transpose': TRANSPOSE_CALLEE})
+AGGREGATIONS = [('Factor.sum', REDUCE, REG_RED, 'attribute list'), ('Factor.logsumexp', REDUCE, REG_RED, 'attribute list'),
+                ('Factor.max', REDUCE, REG_RED, 'attribute list'), ('Factor.project', PROJECT, REG_PROJ, '')]
+STRETCH = AGGREGATIONS
 
 FUNCTIONS = [
     ('Factor.expand', EXPAND, REG, ''),
@@ -154,7 +206,7 @@ FUNCTIONS = [
     ('Factor.exp', UNARY, REG, 'out=None'),
     ('Factor.log', UNARY, REG, 'out=None'),
     ('Factor.copy', UNARY, REG, 'out=None'),
-]
+] + AGGREGATIONS
 
 
 def hooks_for(contract):
